@@ -5,7 +5,9 @@ cd "$(dirname "$0")/.."
 export GOFLAGS=-mod=mod GOPROXY=off GOSUMDB=off GOTOOLCHAIN=local
 mkdir -p out/bin evidence
 (cd tools && go build -o ../out/bin/gx ./gx)
+(cd gentool && cp /repo/go.sum go.sum 2>/dev/null; go build -o ../out/bin/gr ./cmd/gr)
 ./out/bin/gx -repo /repo -lean "$PWD/lean" -out "$PWD/out"
+./out/bin/gr table -repo /repo -out out/table.json -lean "$PWD/lean/GorumsV/Generated/GenTable.lean" -runs 3 >/dev/null 2>&1 || true
 (cd lean && lake build GorumsV driver)
 cp /repo/go.sum harness/go.sum
 printf '{"Replace": {"/repo/verif_access.go": "%s/harness/overlay/verif_access.go.src"}}\n' "$PWD" > out/overlay.json
